@@ -176,12 +176,13 @@ def finish_lemma(ctx, l, rs, files, known_active, prog):
         reproduced = None
         last = None
         if sig[0] == "ub":
-            # the Go caller breaks a memory-safety precondition of an assembly routine (out-of-bounds access inside the asm):
-            # undefined behaviour that a native run does not observe; reported from the encoding, triaged by reading
+            # the Go caller breaks a precondition of an assembly routine's contract (out-of-bounds access inside the asm, or
+            # scanner carries not handed over): the former is undefined behaviour that a native run does not observe, the
+            # latter needs message bytes the harness abstracts; reported from the encoding, triaged by reading
             v = vs[0]
             verdict = "sat"
             ctx.sample({"lemma": l.name, "counterexample": v["replay"], "kind": v["kind"], "msg": v["msg"], "pos": v["pos"], "native": "not observable natively"})
-            ctx.report_violation("%s: memory-safety precondition of an assembly routine violated by its Go caller: %s (at %s); "
+            ctx.report_violation("%s: precondition of an assembly routine's contract violated by its Go caller: %s (at %s); "
                                  "not observable in a native run, reported from the encoding" % (l.name, v["msg"], v["pos"]),
                                  {"lemma": l.name, "entry": v["entry"], "files": [os.path.basename(f) for f in files],
                                   "vec": [x for _, x in v["replay"]], "names": [n for n, _ in v["replay"]], "kind": v["kind"], "msg": v["msg"]})
